@@ -102,6 +102,9 @@ fn cases(dir: &str) -> Vec<Case> {
         add(&format!("parse-tree:cfn:{}", f), sv(&["parse-tree", "-r", &cr, flag]), "", "bytes");
     }
     add("rulegen", sv(&["rulegen", "-t", &tp]), "", "rules");
+    for sh in ["bash", "zsh", "fish"] {
+        add(&format!("completions:{}", sh), sv(&["completions", "--shell", sh]), "", "bytes");
+    }
     out
 }
 
@@ -261,7 +264,7 @@ pub fn run(tier: &str) -> i32 {
             }
         }
         // ---- in-process history: the same invocation 5 times on fresh threads, interleaved with unrelated evaluations
-        if c.argv[0] != "rulegen" {
+        if c.argv[0] != "rulegen" && c.argv[0] != "completions" {
             let mut outs: Vec<(i32, Vec<String>)> = vec![];
             for round in 0..5 {
                 let (argv, stdin, cmp) = (c.argv.clone(), c.stdin.clone(), c.cmp);
@@ -273,7 +276,7 @@ pub fn run(tier: &str) -> i32 {
                 outs.push(h.join().unwrap_or((-1, vec![])));
                 // unrelated evaluations in between (other rules, other data)
                 let other = &cs[(k + 1 + round) % n];
-                if other.argv[0] != "rulegen" {
+                if other.argv[0] != "rulegen" && other.argv[0] != "completions" {
                     let (a2, s2) = (other.argv.clone(), other.stdin.clone());
                     let _ = std::thread::spawn(move || {
                         crate::impl_::silence_panics();
